@@ -21,6 +21,9 @@ CATCH = {  # which checks are expected to report each change (first = primary)
     'C07_m3': ['C01'], 'C07_m4': ['C07'], 'C08_m3': ['C20'], 'C08_m4': ['C02'], 'C11_m3': ['C11'], 'C11_m4': ['C11'],
     'C13_m3': ['C13'], 'C13_m4': ['C13'], 'C15_m3': ['C15'], 'C15_m4': ['C15'], 'C17_m3': ['C17'], 'C17_m4': ['C17'],
     'C18_m3': ['C18'], 'C18_m4': ['C18'],
+    # fourth round (changes that need something specific to manifest: lengths, sequences, thresholds, byte strings)
+    'C02_m5': ['C02'], 'C04_m5': ['C04'], 'C05_m5': ['C05'], 'C07_m5': ['C07'], 'C09_m5': ['C09'], 'C10_m5': ['C10'],
+    'C12_m5': ['C12'], 'C14_m5': ['C14'], 'C15_m5': ['C15'], 'C16_m5': ['C16'], 'C18_m5': ['C18'], 'C20_m5': ['C20'],
 }
 
 
